@@ -9,6 +9,8 @@ CONSTANTS
   QCap = 2
   StopFix = TRUE
   EmitMax = 0
+  Pipes = {FALSE}
+  PCap = 1
 SPECIFICATION Spec
 INVARIANTS Safe TermStop TermDelivered
 CHECK_DEADLOCK FALSE
